@@ -1347,6 +1347,32 @@ func main() {
 		h.emit(sc, execute(sc, ch))
 	}
 	o.Info["scenarios"] = n
+	// systematic exploration: depth-first enumeration of schedules with a preemption bound over a few small
+	// scenarios (supervision matrix + stream + random), each schedule replayed on the model
+	dfsScen, dfsRuns, bound := 4, 40, 1
+	if f.Tier == "thorough" {
+		dfsScen, dfsRuns, bound = 40, 400, 2
+	}
+	total := 0
+	for i := 0; i < dfsScen; i++ {
+		var sc [][]Action
+		switch i % 3 {
+		case 0:
+			sc = g.supScenario()
+		case 1:
+			sc = g.streamScenario()
+		default:
+			sc = g.scenario()
+		}
+		total += vsched.Explore(bound, dfsRuns, func(choose func([]int, int) int) []vsched.Choice {
+			res := execute(sc, choose)
+			h.emit(sc, res)
+			return res.choices
+		})
+	}
+	o.Info["dfs_scenarios"] = dfsScen
+	o.Info["dfs_preemption_bound"] = bound
+	o.Info["dfs_runs"] = total
 	o.Close(f.Report)
 	if len(o.Monitors) > 0 {
 		os.Exit(3)
